@@ -33,8 +33,13 @@ def one(mid: str, tier: str, commit: str) -> tuple[str, dict]:
     if sh(["git", "worktree", "add", "-q", "--detach", str(wt), "HEAD"]).returncode != 0:
         return mid, {"tier": tier, "commit": commit, "applies": False, "results": {}, "error": "worktree"}
     try:
-        ok = sh(["git", "apply", str(d / "patch.diff")], cwd=str(wt)).returncode == 0 or \
-            sh(["git", "apply", "--recount", "-C1", str(d / "patch.diff")], cwd=str(wt)).returncode == 0
+        ok = sh(["git", "apply", str(d / "patch.diff")], cwd=str(wt)).returncode == 0
+        if not ok and sh(["git", "apply", "--3way", str(d / "patch.diff")], cwd=str(wt)).returncode == 0:
+            ok = sh(["git", "diff", "--name-only", "--diff-filter=U"], cwd=str(wt)).stdout.strip() == ""
+            sh(["git", "reset", "-q"], cwd=str(wt))
+        if not ok:
+            sh(["git", "checkout", "-q", "--", "."], cwd=str(wt))
+            ok = sh(["git", "apply", "--recount", "-C1", str(d / "patch.diff")], cwd=str(wt)).returncode == 0
         if not ok:
             return mid, {"tier": tier, "commit": commit, "applies": False, "results": {}}
         results = {}
